@@ -18,7 +18,7 @@ From ASV.C08 Require Model.
 From ASV.C17 Require Model.
 From ASV.C12 Require Model.
 From ASV.C02 Require Model.
-From ASV.C11 Require Model.
+From ASV.C11 Require Model ModelRule.
 From ASV.C10 Require Model.
 
 Definition run (l : list Z) : list Z :=
@@ -43,7 +43,7 @@ Definition run (l : list Z) : list Z :=
     | 17 => C17.Model.run_C17 fn payload
     | 12 => C12.Model.run_C12 fn payload
     | 2 => C02.Model.run_C02 fn payload
-    | 11 => C11.Model.run_C11 fn payload
+    | 11 => C11.ModelRule.run_C11b fn payload
     | 10 => C10.Model.run_C10 fn payload
     | _ => bad_input
     end
